@@ -25,5 +25,6 @@ def run(ctx):
     immut.im11(ctx)
     immut.im13(ctx)     # nobody writes into the cache of a URL it did not create (shared, memoised objects)
     immut.im12(ctx)
+    immut.im18(ctx)     # no call removes an entry another call stored
     immut.im16(ctx)     # ... and no two cached properties share one cache key
     immut.im14(ctx)     # a cache key that a helper co-fills has one value, whichever accessor is read first
